@@ -11,7 +11,7 @@ ORACLES = {
 }
 
 
-def run_cl(ctx, prop, n_quick=24, n_thorough=200):
+def run_cl(ctx, prop, n_quick=24, n_thorough=800):
     res = fw.corr(ctx, "cl", n_thorough if ctx.thorough() else n_quick)
     if res is None:
         return
